@@ -3,6 +3,7 @@ package props
 import (
 	"bufio"
 	"bytes"
+	"encoding/json"
 	"fmt"
 	"go/ast"
 	"go/parser"
@@ -602,6 +603,23 @@ func C19RaceBody(tier string) int {
 					ecs.ResourceTypeID(&w, tp)
 					atomic.AddInt64(&execs, 1)
 				}
+				// saving and restoring a world while other worlds do the same (serialisation helpers, statistics, printing)
+				for k := 0; k < 20; k++ {
+					d := w.DumpEntities()
+					js, err := json.Marshal(&d)
+					var back ecs.EntityDump
+					if err == nil {
+						err = json.Unmarshal(js, &back)
+					}
+					if err != nil || !reflect.DeepEqual(d.Entities, back.Entities) {
+						fmt.Println("RACE-BODY-ERROR: an entity dump did not survive a JSON round trip while other worlds were being saved")
+					}
+					w2 := ecs.NewWorld()
+					w2.LoadEntities(&back)
+					_ = w.Stats().String()
+					_ = fmt.Sprint(w2.NewEntity())
+					atomic.AddInt64(&execs, 1)
+				}
 			}
 			// lock scenario body
 			lr := (&sim.LockCfg{ID: "race", Q: 2, Probes: 1}).New()
@@ -631,6 +649,9 @@ func c19Race(rp *runner.Report) {
 	err := cmd.Run()
 	txt := out.String()
 	races := strings.Count(txt, "WARNING: DATA RACE")
+	if strings.Contains(txt, "RACE-BODY-ERROR") {
+		rp.Violation(&runner.ReplayFile{Scenario: "c19-race", Sig: "isolation:cross-talk-concurrent", Msg: "worlds driven concurrently disturbed each other: an entity dump did not survive a JSON round trip while other worlds were being saved", OpsText: []string{"see C19RaceBody"}, Kind: "c19race"})
+	}
 	execs := 0
 	sc := bufio.NewScanner(strings.NewReader(txt))
 	for sc.Scan() {
